@@ -126,7 +126,8 @@ Inductive reason :=
 | RNoCaller            (* order-exposing helper without any caller in the library *)
 | RFirstMatchUnique    (* flowAssets.FindByName: first match; invariant when at most one cached flow has the name *)
 | RHeaderDefaults      (* webhooks service: defaults written through http.Header canonical names from engine configuration *)
-| RKeySelected         (* jsonpath.visit: `k == selector` selects at most one key; the wildcard branch writes by the key *).
+| RKeySelected         (* jsonpath.visit: `k == selector` selects at most one key; the wildcard branch writes by the key *)
+| RKeyPartitioned      (* every iteration reads and writes only dst[k] for its own key k *).
 
 Record exception_entry := {
   x_pkg : string; x_func : string; x_ord : nat;
